@@ -50,6 +50,17 @@ PROPS = {
               "matrix Transform laws are stated for affine matrices (the documented domain of Transform); Matrix3 as a 3-D transform: all matrices",
               "ulps_eq!(scale, 0) is an oracle (Approx); the thresholds |scale| > 1e-6 => Some and scale = 0 => None are exercised at Xq (binary64 parameters) and hold for any ulps_eq with ulps_eq 0 0 = true and not ulps_eq s 0 for |s| > 1e-6"],
              trusted=["rustc monomorphisation of the generic code at Xq"]),
+    "C09": P(9, axioms=R_AXIOMS,
+             assumptions=["model (coq/Model/Rotation.v look_to/look_at constructors, Transform.v dec_look_at_*) is hand-written; tied to /repo by the exact-arithmetic correspondence of this run",
+              "theorems are over the reals (sqrt of the standard library); hypotheses: d non-zero and d x up non-zero (up not parallel to d)",
+              "Quaternion::look_at is by definition the conversion of Matrix3::look_to_lh (quat_of_m3); that the conversion preserves the rotation is C05 (for matrices of unit quaternions) and is "
+              "checked on the implementation by the executed predicate 'Quaternion::look_at ... agree with the matrices', not proved for arbitrary rotation matrices",
+              "Matrix3 as a 2-D transform and Decomposed<Vector2, Basis2> are covered by the correspondence and the 2-D theorem about Matrix2::look_at only",
+              "the correspondence needs exact square roots: d is a multiple of a row of a rational rotation matrix, up has a rational-length component orthogonal to d"],
+             rule="every look_* entry point (Matrix2/3/4, Basis2/3, Quaternion, Decomposed over Basis3/Quaternion/Basis2, the Transform trait methods, the deprecated aliases) on directions in "
+                  "general position (all components non-zero, up with components along all three frame vectors) and with up in the plane of d and one frame vector (exact quaternion conversion); "
+                  "2-D: up on either side of d and exactly along d; non-trivial = tag nt:*; distinct by hash",
+             trusted=["rustc monomorphisation of the generic code at Xq and f64"]),
     "C10": P(10, axioms=R_AXIOMS, assumptions=["model (coq/Model/Projection.v) is hand-written; tied to /repo by the exact-arithmetic correspondence of this run",
               "tan is an oracle (exact rational tangents of lattice angles in the correspondence; the real tan in the R theorems)",
               "abs_diff_ne!: the scalar's abs_diff_eq with default epsilon, specified by ApproxSpecR (|a-b| <= eps); for Xq eps = 2^-52",
